@@ -137,15 +137,14 @@ func (p *LookupProtocolV1) REGISTER(client *ClientV1, reader *bufio.Reader, para
 		return nil, err
 	}
 
-	if channel != "" {
-		key := Registration{"channel", topic, channel}
-		if p.nsqlookupd.DB.AddProducer(key, &Producer{peerInfo: client.peerInfo}) {
-			p.nsqlookupd.logf(LOG_INFO, "DB: client(%s) REGISTER category:%s key:%s subkey:%s",
-				client, "channel", topic, channel)
-		}
+	// both registrations in one critical section: a concurrent /topic/delete
+	// removes both or neither
+	addedChannel, addedTopic := p.nsqlookupd.DB.RegisterProducer(topic, channel, client.peerInfo)
+	if addedChannel {
+		p.nsqlookupd.logf(LOG_INFO, "DB: client(%s) REGISTER category:%s key:%s subkey:%s",
+			client, "channel", topic, channel)
 	}
-	key := Registration{"topic", topic, ""}
-	if p.nsqlookupd.DB.AddProducer(key, &Producer{peerInfo: client.peerInfo}) {
+	if addedTopic {
 		p.nsqlookupd.logf(LOG_INFO, "DB: client(%s) REGISTER category:%s key:%s subkey:%s",
 			client, "topic", topic, "")
 	}
